@@ -28,6 +28,11 @@ def lemma_bodies(text):
     for a in range(len(sg) - 2):
         if toks[sg[a]].text == "proof" and toks[sg[a + 1]].text == "fn":
             name = toks[sg[a + 2]].text
+            # axioms (`#[verifier::external_body] proof fn`) have no checked body: they are assumptions,
+            # listed by the trust scan, and cannot be canaried
+            back = [toks[sg[b]].text for b in range(max(0, a - 12), a)]
+            if "external_body" in back and "fn" not in back[back.index("external_body"):]:
+                continue
             # params
             b = a + 3
             while toks[sg[b]].text != "(":
